@@ -92,10 +92,10 @@ def parse_message(message, validation_level=None, find_groups=True, message_prof
     m.children = children
 
     if force_validation:
-        if message_profile is None:
+        if reference is None:  # no message profile given (or an empty one)
             Validator.validate(m, report_file=report_file)
         else:
-            Validator.validate(m, message_profile[message_structure], report_file=report_file)
+            Validator.validate(m, reference, report_file=report_file)
 
     return m
 
